@@ -49,8 +49,11 @@ var (
 	Local = time.Local
 )
 
-// NowHook, when set, replaces the wall clock (virtual time).
-var NowHook func() Time
+// NowHook replaces the wall clock (virtual time). Its default is a FIXED instant, so
+// that package-level initialisers of the code under test (the commit-id seed) give
+// the same value in every process: work items are split by one process and executed
+// by others, which must see byte-identical snapshots.
+var NowHook func() Time = func() Time { return time.Unix(1_700_000_000, 0) }
 
 // Frozen makes NewTicker return tickers that never fire, unless TickerHook is set.
 // The harness sets it at start-up so that no background pass runs on real time.
